@@ -98,13 +98,14 @@ CheckInit == [
 
 \* the wait in force: what the policy asked for and what has been armed / fired (C12)
 \* lines the environment (driver) writes, and lines of operations the machine blocks on until the driver completes them
-EnvKinds == {"tm.fire", "ctl.send", "ctl.drop", "clock", "crash", "restart", "cut", "end", "dropstream", "hang"}
+EnvKinds == {"tm.fire", "ctl.send", "ctl.drop", "clock", "crash", "restart", "cut", "end", "dropstream", "hang", "hold",
+             "tm.nofire", "ctl.nohandle"}
 GatedKinds == {"http.uc", "http.ev", "http.ping", "pol.next", "pol.check", "pol.start", "pol.rbneeded", "pol.rballowed",
                "inst.plan", "inst.install", "inst.reboot", "st.set", "st.rm", "st.commit"}
 WaitInit == [ph |-> "none", exp |-> <<>>, untilTid |-> 0, forTid |-> 0, untilFired |-> FALSE, forFired |-> FALSE]
 
 GhostInit == [
-  viol |-> {}, started |-> FALSE, opPend |-> FALSE,
+  viol |-> {}, started |-> FALSE, opPend |-> FALSE, held |-> FALSE,
   cup |-> FALSE, mode |-> "start", kid |-> 0, apps |-> <<>>, sys |-> "", os |-> "", invalid |-> FALSE,
   faulty |-> FALSE, dead |-> FALSE, panicked |-> FALSE,
   usedRids |-> {}, usedNonces |-> {}, usedSids |-> {},
@@ -778,9 +779,11 @@ StepRbAllowed(g, e) ==
          \cup Chk("C12", "reboot-question-unprompted", first \/ byTimer \/ byDemand)
          \cup Chk("C11", "reboot-question-source",
                   IF e.src = "ondemand" THEN g.odTaken \/ OutstandingOd(g) ELSE ~g.odTaken)
+  \* when the timer has fired AND an on-demand request is waiting, the select takes them in either order and asks
+  \* twice: a question that a request accounts for leaves the timer's prompt standing
   IN V([g EXCEPT !.rbAllowed = IF e.ans THEN "yes" ELSE "no",
-                 !.rbFired = FALSE,
-                 !.rbRearm = ~first /\ byTimer /\ ~e.ans], vs)
+                 !.rbFired = IF byDemand /\ ~first THEN @ ELSE FALSE,
+                 !.rbRearm = @ \/ (~first /\ byTimer /\ ~e.ans)], vs)
 
 StepReboot(g, e) ==
   V([g EXCEPT !.rbAllowed = "none"],
@@ -932,7 +935,7 @@ Transparent(g, e) ==
 
 ApplyPingFx(g) == [g EXCEPT !.fails = CASE g.pingFx = "inc" -> Inc(@) [] g.pingFx = "zero" -> 0 [] OTHER -> @,
                             !.pingFx = "none"]
-Neutral(e) == e.k \in {"cupv", "met", "ctl.send", "ctl.reply", "ctl.drop", "tm.fire", "clock"}
+Neutral(e) == e.k \in {"cupv", "met", "ctl.send", "ctl.reply", "ctl.drop", "tm.fire", "clock", "hold"}
 
 GhostStep(g, e) ==
   LET ga == IF g.pp = "maybe" /\ ~Neutral(e) /\ ~(e.k = "ev" /\ e.e = "pstate")
@@ -943,7 +946,8 @@ GhostStep(g, e) ==
               ELSE ga
       \* C13: once every timer of a wait has fired the machine has been woken and must act (ask the policy, ping)
       \* before the environment does anything else; C12: a wait whose schedule was announced gets its timers
-      g1 == IF e.k \in EnvKinds /\ ~g0.opPend /\ ~g0.dead /\ g0.w.ph = "armed" /\ g0.w.untilFired
+      \* (a consumer that is being held back has not let the machine run yet)
+      g1 == IF e.k \in EnvKinds /\ ~g0.opPend /\ ~g0.dead /\ ~g0.held /\ g0.w.ph = "armed" /\ g0.w.untilFired
                  /\ (g0.w.forTid = 0 \/ g0.w.forFired) /\ g0.ctlOut = {}
               THEN V(g0, {<<"C13", "wait-over-nothing-happened">>})
               ELSE IF g0.w.ph = "wantArm" /\ ~g0.dead /\ ~Neutral(e) /\ e.k # "tm.arm"
@@ -952,6 +956,7 @@ GhostStep(g, e) ==
               ELSE g0
       g2 == Transparent(GhostStep0(g1, e), e)
   IN [g2 EXCEPT !.w = IF e.k = "crash" THEN WaitInit ELSE @,
+                !.held = IF e.k = "hold" THEN TRUE ELSE IF e.k \in EnvKinds \cup {"ctl.reply"} THEN g2.held ELSE FALSE,
                 !.opPend = IF e.k \in GatedKinds THEN TRUE
                            ELSE IF e.k \in {"crash", "restart", "cfg"} THEN FALSE
                            ELSE IF e.k \in EnvKinds \cup {"ctl.reply"} THEN g2.opPend
